@@ -249,24 +249,24 @@ func cmdCheck(args []string) int {
 		cfgNames = append(cfgNames, c.String())
 	}
 	cov := map[string]any{
-		"explanation": chk.Explanation + " NOT DECIDED: " + chk.NotDecided,
-		"technique":   chk.Technique,
-		"obligations": len(keys),
-		"discharged":  discharged,
-		"violated":    violations,
-		"known_findings": known,
-		"undecided":   undecided,
-		"samples":     samples,
-		"roles":       roles,
+		"explanation":        chk.Explanation + " NOT DECIDED: " + chk.NotDecided,
+		"technique":          chk.Technique,
+		"obligations":        len(keys),
+		"discharged":         discharged,
+		"violated":           violations,
+		"known_findings":     known,
+		"undecided":          undecided,
+		"samples":            samples,
+		"roles":              roles,
 		"functions_analysed": functions,
 		"packages_loaded":    pkgs,
-		"floors":      floors,
-		"configurations": cfgNames,
-		"checker_cmd": "bin/verifcheck check -prop " + chk.ID + " -tier " + *tier,
-		"trusted_base": append([]string{"go/types, go/ssa, go/packages (golang.org/x/tools v0.29.0)", "Go memory model: sync.Mutex critical sections, channel close wakes all receivers"}, chk.Trusted...),
-		"check_errors": checkErrs,
-		"exhaustive":  true,
-		"rule":        "every rule enumerates all of its instances in the loaded packages; an obligation is one rule applied to one construct (function, call site, exit, table entry); nothing is sampled",
+		"floors":             floors,
+		"configurations":     cfgNames,
+		"checker_cmd":        "bin/verifcheck check -prop " + chk.ID + " -tier " + *tier,
+		"trusted_base":       append([]string{"go/types, go/ssa, go/packages (golang.org/x/tools v0.29.0)", "Go memory model: sync.Mutex critical sections, channel close wakes all receivers"}, chk.Trusted...),
+		"check_errors":       checkErrs,
+		"exhaustive":         true,
+		"rule":               "every rule enumerates all of its instances in the loaded packages; an obligation is one rule applied to one construct (function, call site, exit, table entry); nothing is sampled",
 	}
 	if *tier == "thorough" {
 		cov["mutants"] = runMutants(chk.ID, false)
